@@ -45,6 +45,15 @@ var c14Fams = []selFam{
 	// such names with JSON escapes (\u00e9, \/) — the name is what the escapes decode to
 	{`^prénom`, []string{"prénom", "prénom2"}, []string{"prenom", "nom", "Prénom"}},
 	{`in/out`, []string{"in/out", "login/outbound"}, []string{"in_out", "in\\out"}},
+	// patterns that match the protocol keys of write statements (updates[].q / .u / .c, deletes[].q): those are
+	// not field names; documents may of course HAVE fields called q or u, and those do count
+	{`^(q|u|c|email)$`, []string{"q", "u", "email"}, []string{"qq", "uu", "mail", "k"}},
+	{`q`, []string{"qty", "seq", "q"}, []string{"name", "k", "Q"}},
+	{`^u`, []string{"uid", "u", "user"}, []string{"name", "k", "menu"}},
+	{`limit|multi|upsert`, []string{"limits", "multiplier"}, []string{"limi", "k"}},
+	// case-insensitive alternatives written with capitals
+	{`(?i)^(SSN|phoneNumber|Zip)$`, []string{"ssn", "SSN", "phonenumber", "PhoneNumber", "zip"}, []string{"ssn2", "phone", "zipcode"}},
+	{`(?i)^EMAIL$`, []string{"email", "Email", "EMAIL"}, []string{"emails", "e_mail"}},
 }
 
 // keys that are part of the command / stage grammar, not field names of the document: the zone key
